@@ -87,7 +87,8 @@ fn find_operator(expr: &str, operators: &[char]) -> Option<usize> {
     let mut paren_depth = 0;
     let mut last_pos = None;
 
-    for (i, ch) in expr.chars().enumerate() {
+    // byte offsets (char_indices), because the caller slices `expr` with the result
+    for (i, ch) in expr.char_indices() {
         match ch {
             '(' => paren_depth += 1,
             ')' => paren_depth -= 1,
